@@ -223,7 +223,7 @@ func main() {
 	// ------------------------------------------------------------ (a) access decision grid
 	remotes := []string{"127.0.0.1:4000", "[::1]:4000", "127.8.9.10:1", "10.0.0.9:4000", "8.8.8.8:53", "[2001:db8::1]:443",
 		"[::ffff:10.0.0.9]:80", "[::ffff:127.0.0.1]:80", "10.0.0.99:4000", "bogus:1", "256.1.1.1:80", ":80", "", "0.0.0.0:1", "[fe80::1%eth0]:80", "010.0.0.9:80"}
-	whitelists := [][]string{nil, {"10.0.0.9"}, {"10.0.0.8"}, {"0.0.0.0"}, {"8.8.4.4", "2001:db8::1"}, {"2001:DB8:0::1"}, {"10.0.0.09", "::ffff:10.0.0.9"}, {"10.0.0.8", "0.0.0.0"}}
+	whitelists := [][]string{nil, {"10.0.0.9"}, {"10.0.0.8"}, {"0.0.0.0"}, {"8.8.4.4", "2001:db8::1"}, {"2001:DB8:0::1"}, {"10.0.0.09", "::ffff:10.0.0.9"}, {"10.0.0.8", "0.0.0.0"}, {""}, {"localhost", "10.0.0.0/8"}}
 	type cred struct{ u, p string }
 	creds := []cred{{"", ""}, {"alice", "secret"}, {"alice", ""}, {"", "secret"}}
 	basic := func(u, p string) string { return "Basic " + base64.StdEncoding.EncodeToString([]byte(u+":"+p)) }
@@ -323,10 +323,15 @@ func main() {
 						if quick && run.Scale <= 1 && si > 0 && ri%3 != 0 {
 							continue
 						}
-						if quick && (ri >= 13 && ri != 15 || wi >= 6) && (ri+wi+hi)%7 != 0 {
+						// whitelists 8 and 9 hold entries that are not IP literals: always run
+						if quick && (ri >= 13 && ri != 15 || wi >= 6 && wi < 8) && (ri+wi+hi)%7 != 0 {
 							continue
 						}
-						runReq(remote, wl, c, hdrs, shp, !quick || (ri+wi+hi)%4 == 0, "")
+						unparsable := false
+						if h, _, err := net.SplitHostPort(remote); err != nil || net.ParseIP(h) == nil {
+							unparsable = true
+						}
+						runReq(remote, wl, c, hdrs, shp, !quick || (ri+wi+hi)%4 == 0 || (unparsable && wi >= 6), "")
 					}
 				}
 			}
